@@ -111,15 +111,17 @@ class Gen:
         self.head = self.find_loop_head()
         self.ex.cut_points = {(self.fn.name, self.head)}
         self.extra_locals = {}
+        self.inclusive = True
+        self.END = MAXCP
         self.havocked = set()
         self.havoc_constraints = []
 
     def find_loop_head(self):
         for bb, ins in self.fn.blocks.items():
             for st in ins:
-                if st[0] == 'call' and st[2][0] == 'path' and 'Iterator>::next' in st[2][1] and 'RangeInclusive' in st[2][1]:
+                if st[0] == 'call' and st[2][0] == 'path' and 'Iterator>::next' in st[2][1] and 'Range' in st[2][1]:
                     return bb
-        raise Inconclusive('loop head (RangeInclusive::next call) not found')
+        raise Inconclusive('loop head (a `next` call on a Range / RangeInclusive iterator) not found')
 
     def run_from_entry(self):
         """base case: from function entry to the first arrival at the loop head"""
@@ -136,7 +138,10 @@ class Gen:
         fr.bb, fr.si = self.head, 0
         fr.locals[self.l_ranges] = Native('vec', ((),))
         fr.locals[self.l_crs] = E('None') if crs is None else E('Some', (S(32, crs),))
-        fr.locals[self.l_iter] = A((S(32, i), S(32, MAXCP), S(1, 1 if exhausted else 0)))
+        if self.inclusive:
+            fr.locals[self.l_iter] = A((S(32, i), S(32, self.END), S(1, 1 if exhausted else 0)))
+        else:
+            fr.locals[self.l_iter] = A((S(32, self.END if exhausted else i), S(32, self.END)))
         for k, v in self.extra_locals.items():
             fr.locals.setdefault(k, v)
         # user variables other than the four the invariant describes may be carried around the loop:
@@ -316,8 +321,12 @@ def main():
             it = fr.locals[g.l_iter]
             crs = fr.locals[g.l_crs]
             rg = fr.locals[g.l_ranges]
-            ok = (isinstance(crs, E) and crs.v == 'None' and isinstance(rg, Native) and rg.p[0] == () and
-                  it.f[0].conc() and it.f[0].v == 0 and it.f[1].conc() and it.f[1].v == MAXCP and it.f[2].conc() and it.f[2].v == 0)
+            shape_ok = isinstance(it, A) and len(it.f) in (2, 3) and all(isinstance(x, S) and x.conc() for x in it.f)
+            if shape_ok:
+                g.inclusive = len(it.f) == 3
+                g.END = it.f[1].v
+            ok = (shape_ok and isinstance(crs, E) and crs.v == 'None' and isinstance(rg, Native) and rg.p[0] == () and
+                  it.f[0].v == 0 and (not g.inclusive or it.f[2].v == 0))
             stats['vcs'] += 1
             if not ok:
                 rep.violation('base initial-state', 'state at the first loop-head arrival is not (i=0, no open range, empty table): %r %r %r' % (it, crs, rg), {'it': repr(it)})
@@ -336,12 +345,13 @@ def main():
                 last_end = z3.Int('last_end')
                 cov = z3.Bool('cov')
                 crs = None if crs_kind == 'none' else s
-                i_inv = z3.IntVal(MAXCP + 1) if exhausted else i
+                exit_i = g.END + 1 if g.inclusive else g.END
+                i_inv = z3.IntVal(exit_i) if exhausted else i
                 hyp_terms = [cstar, cfresh, prev_scalar(i_inv), i_inv - 1]
-                hyp = [scalar(cstar), scalar(cfresh), i >= 0, i <= MAXCP, s >= 0, s <= MAXCP,
+                hyp = [scalar(cstar), scalar(cfresh), i >= 0, i <= exit_i - 1, s >= 0, s <= MAXCP,
                        inv(i_inv, crs, last_end, cov, cstar, hyp_terms)]
                 ex.solver.add(*hyp)
-                st, fid = g.head_state(i if not exhausted else z3.IntVal(MAXCP), exhausted, crs)
+                st, fid = g.head_state(i if not exhausted else z3.IntVal(g.END), exhausted, crs)
                 if g.havoc_constraints:
                     ex.solver.add(*g.havoc_constraints)
                 st.aux['cut_armed'] = False
@@ -363,7 +373,10 @@ def main():
                         pushed = fr.locals[g.l_ranges].p[0]
                         crs2v = fr.locals[g.l_crs]
                         it2 = fr.locals[g.l_iter]
-                        i2 = z3.IntVal(MAXCP + 1) if (it2.f[2].conc() and it2.f[2].v) else zi(it2.f[0])
+                        if g.inclusive:
+                            i2 = z3.IntVal(exit_i) if (it2.f[2].conc() and it2.f[2].v) else zi(it2.f[0])
+                        else:
+                            i2 = zi(it2.f[0])
                     else:
                         # return: loop exit
                         pushed = val.p[0]
